@@ -2,7 +2,7 @@
    Statements only; proofs in Proofs/HandshakeP.v, Proofs/Base64P.v, Proofs/Sha1P.v. *)
 From Coq Require Import List NArith ZArith Bool.
 From WS Require Import Base.Words Gen.Consts Gen.AcceptCode Model.Proto Model.Fold Model.Base64 Model.Sha1 Model.Origin Model.Handshake
-  Proofs.Base64P Proofs.Sha1P Proofs.HandshakeP Proofs.GenTieP.
+  Proofs.Base64P Proofs.Sha1P Proofs.HandshakeP Proofs.GenTieP Model.HsCompose Gen.HeaderCode Proofs.GenTie2P.
 Import ListNotations.
 
 (* Accept answers 101 (and takes the connection over) exactly for the requests the property describes: GET, HTTP/1.1 or
@@ -53,3 +53,15 @@ Theorem C11_checks_are_source : forall r,
     (Z.of_nat (length (hs_values (q_hdrs r) s_SecKey))) (req_key_decodes r) (req_key_len r).
 Proof. exact verify_client_request_is_source. Qed.
 Print Assumptions C11_checks_are_source.
+
+(* the answer of an upgrading Accept — status and headers, in the source's order and under its conditions, as net/http stores them —
+   is what accept (accept.go) writes, translated into Gen/HeaderCode.v on every run *)
+Theorem C11_response_is_source : forall a, ar_status a = Z.to_nat gen_accept_status ->
+  lib_response a =
+  {| p_status := Z.to_nat gen_accept_status;
+     p_hdrs := as_headers (gen_accept_headers (ar_accept a) (ar_subproto a)
+                 (match ar_subproto a with [] => false | _ => true end)
+                 (match ar_copts a with Some _ => true | None => false end)
+                 (match ar_copts a with Some c => gen_render_copts (cnct c) (snct c) | None => [] end)) |}.
+Proof. exact lib_response_is_source. Qed.
+Print Assumptions C11_response_is_source.
